@@ -216,3 +216,139 @@ Definition browse (name : string) (t : template) (j : bjar) (rs : list (ctx * Z 
 (* the abstract jar of Model/Hist.v under the same responses *)
 Definition abs_browse (v : cval) (rs : list (ctx * Z * list cookie)) : cval :=
   fold_left (fun v r => apply_cookies v (snd r)) rs v.
+
+(* --------------------------------------- browsers along a history (Hist.v) *)
+
+(* one browser jar per client, beside the abstract jars of Hist.world *)
+Definition bjars := list (N * bjar).
+
+Fixpoint bjar_of (bs : bjars) (c : N) : bjar :=
+  match bs with
+  | [] => []
+  | (c', j) :: t => if N.eqb c c' then j else bjar_of t c
+  end.
+
+Fixpoint bjar_set (bs : bjars) (c : N) (j : bjar) : bjars :=
+  match bs with
+  | [] => [(c, j)]
+  | (c', j') :: t => if N.eqb c c' then (c, j) :: t else (c', j') :: bjar_set t c j
+  end.
+
+(* The browsers under one step whose observation is o: the client of a request
+   step that presented its own jar applies the Set-Cookie headers of the
+   response, rendered from (name, t), in the context x of that request at
+   browser time nowb. (A crashed step has no response: ob_cookies is empty. A
+   forged request is not the client's browser.) *)
+Definition bstep (name : string) (t : template) (bs : bjars) (h : hop) (x : ctx) (nowb : Z) (o : obs) : bjars :=
+  match h with
+  | HReq r =>
+    match rq_present r with
+    | PJar => bjar_set bs (rq_client r)
+                (jar_apply_all x nowb (bjar_of bs (rq_client r)) (render_all name t (ob_cookies o)))
+    | PForge _ => bs
+    end
+  | _ => bs
+  end.
+
+(* a history whose steps carry the request context and the browser's clock *)
+Fixpoint brun (name : string) (t : template) (w : world) (bs : bjars) (hs : list (hop * ctx * Z)) : world * bjars :=
+  match hs with
+  | [] => (w, bs)
+  | (h, x, nowb) :: tl => brun name t (fst (step w h)) (bstep name t bs h x nowb (snd (step w h))) tl
+  end.
+
+(* ------------------- correspondence with the real code (family cookieattr) *)
+
+Definition cvalue_eqb (a b : cvalue) : bool :=
+  match a, b with
+  | VId k, VId k' => key_eqb k k'
+  | VText s, VText s' => String.eqb s s'
+  | _, _ => false
+  end.
+
+Definition optz_eqb (a b : option Z) : bool :=
+  match a, b with
+  | Some x, Some y => Z.eqb x y
+  | None, None => true
+  | _, _ => false
+  end.
+
+Definition jarval_eqb (a b : cval) : bool :=
+  match a, b with
+  | CNone, CNone => true
+  | CKey k, CKey k' => key_eqb k k'
+  | COther n, COther m => N.eqb n m
+  | _, _ => false
+  end.
+
+(* the numbers of the fields in which two cookies differ: 1 Name, 2 Value,
+   3 Domain, 4 Path, 5 Secure, 6 HttpOnly, 7 Partitioned, 8 SameSite, 9 MaxAge,
+   10 Expires *)
+Definition hc_diff (a b : http_cookie) : list N :=
+  (if String.eqb (h_name a) (h_name b) then [] else [1%N]) ++
+  (if cvalue_eqb (h_value a) (h_value b) then [] else [2%N]) ++
+  (if String.eqb (h_domain a) (h_domain b) then [] else [3%N]) ++
+  (if String.eqb (h_path a) (h_path b) then [] else [4%N]) ++
+  (if Bool.eqb (h_secure a) (h_secure b) then [] else [5%N]) ++
+  (if Bool.eqb (h_httponly a) (h_httponly b) then [] else [6%N]) ++
+  (if Bool.eqb (h_partitioned a) (h_partitioned b) then [] else [7%N]) ++
+  (if N.eqb (h_samesite a) (h_samesite b) then [] else [8%N]) ++
+  (if Z.eqb (h_maxage a) (h_maxage b) then [] else [9%N]) ++
+  (if optz_eqb (h_expires a) (h_expires b) then [] else [10%N]).
+
+(* expected against observed cookies of one response: (cookie index, field);
+   field 0: one of the lists is longer *)
+Fixpoint hcs_diff (i : N) (e o : list http_cookie) : list (N * N) :=
+  match e, o with
+  | [], [] => []
+  | a :: e', b :: o' => map (fun f => (i, f)) (hc_diff a b) ++ hcs_diff (i + 1) e' o'
+  | _, _ => [(i, 0%N)]
+  end.
+
+(* One observed response: the browser tabs (clients) that receive it, the
+   abstract cookies the flow should produce, the Set-Cookie lines the real code
+   wrote (parsed), and what a real RFC 6265 jar (net/http/cookiejar) of each of
+   those tabs holds under the session cookie's name afterwards. *)
+Record aresp := mkAResp {
+  ar_tabs : list N; ar_expected : list cookie; ar_observed : list http_cookie; ar_jars : list cval }.
+
+Record acase := mkACase {
+  ac_name : string; ac_tmpl : template; ac_ctx : ctx; ac_now : Z; ac_resps : list aresp }.
+
+(* every tab applies the rendered cookies; differences between abs_jar and the
+   observed jar are reported as (1000 + position of the tab, 0) *)
+Fixpoint tabs_step (name : string) (t : template) (x : ctx) (now : Z) (bs : bjars)
+         (hs : list http_cookie) (i : N) (tabs : list N) (seen : list cval) : bjars * list (N * N) :=
+  match tabs with
+  | [] => (bs, [])
+  | c :: tabs' =>
+    let j := jar_apply_all x now (bjar_of bs c) hs in
+    let bs1 := bjar_set bs c j in
+    let d := match seen with
+             | v :: _ => if jarval_eqb (abs_jar x name t j) v then [] else [((1000 + i)%N, 0%N)]
+             | [] => [((1000 + i)%N, 1%N)]
+             end in
+    let '(bs2, ds) := tabs_step name t x now bs1 hs (i + 1) tabs' (tl seen) in
+    (bs2, d ++ ds)
+  end.
+
+Fixpoint resps_diff (name : string) (t : template) (x : ctx) (now : Z) (bs : bjars) (ri : N) (rs : list aresp)
+  : list (N * N * N) :=
+  match rs with
+  | [] => []
+  | r :: rs' =>
+    let hs := render_all name t (ar_expected r) in
+    let d1 := hcs_diff 0 hs (ar_observed r) in
+    let '(bs1, d2) := tabs_step name t x now bs hs 0 (ar_tabs r) (ar_jars r) in
+    map (fun p => (ri, fst p, snd p)) (d1 ++ d2) ++ resps_diff name t x now bs1 (ri + 1) rs'
+  end.
+
+Definition acase_diff (c : acase) : list (N * N * N) :=
+  resps_diff (ac_name c) (ac_tmpl c) (ac_ctx c) (ac_now c) [] 0 (ac_resps c).
+
+(* flat: case, response, cookie (or 1000 + tab), field *)
+Fixpoint acases_diff (i : N) (cs : list acase) : list N :=
+  match cs with
+  | [] => []
+  | c :: cs' => flat_map (fun d => [i; fst (fst d); snd (fst d); snd d]) (acase_diff c) ++ acases_diff (i + 1) cs'
+  end.
